@@ -109,6 +109,7 @@ def gen_harness_ninja():
                 continue
             cfg += line.replace("@PROJECT_VERSION@", "verif").replace("@PROJECT_CONTACT@", "verif")
     _write_if_changed(f"{HB}/xtpcfg/votca/xtp/votca_xtp_config.h", cfg)
+    _write_if_changed(f"{HB}/xtpcfg/votca_xtp_config.h", cfg)  # xtp/eigen.h includes it without the directory
     out = []
     out.append(f"cflags = {CXXFLAGS}")
     out.append("rule cxx\n  command = $cxx $cflags $extra -MD -MF $out.d -c $in -o $out\n  depfile = $out.d\n  deps = gcc\n"
